@@ -10,7 +10,7 @@ NEED = ("h4x",)
 RULE = ("histories (<=40 ops) over up to 5 vgroups and 3 vdatas: Vattach(-1,w), Vsetname/Vsetclass (lengths 0..300), "
         "Vaddtagref (arbitrary tag/refs, duplicates), bulk additions crossing 64/128 members, Vinsert of vgroup and "
         "vdata handles, Vdeletetagref, Vdetach, re-attach w/r, Vdelete, VSdelete, Vend/Hclose/reopen; observers "
-        "Vntagrefs/Vgettagrefs/Vgettagref/Vinqtagref/Vnrefs/Vgetname/Vgetclass/Vgetnamelen/Vlone/VSlone/Vgetid and "
+        "Vntagrefs/Vgettagrefs/Vgettagref/Vinqtagref/Vnrefs/Vinquire/Visvg/Visvs/Vgetname/Vgetclass/Vgetnamelen/Vlone/VSlone/Vgetid and "
         "VSgetid iteration/Vfind/VSfind/Vfindclass/Vgetvgroups/VSgetvdatas after every mutator and after a final "
         "reopen, against a multigraph model. Non-trivial = delete in the middle, duplicate member, >=65 members, "
         "or an edit after reopen.")
@@ -139,6 +139,15 @@ def emit(case, path):
             S("nrefs", p.call("i", "Vnrefs", V("g%d" % g), t), g, t)
         S("inq", p.call("i", "Vinqtagref", V("g%d" % g), UTAGS[0], 3), g, UTAGS[0], 3)
         S("tagref0", p.call("i", "Vgettagref", V("g%d" % g), 0, Out(4), Out(4)), g, 0)
+        S("inquire", p.call("i", "Vinquire", V("g%d" % g), Out(4), OutS(400)), g)
+        for h in range(NG):
+            if ex[h]:
+                S("isvg", p.call("i", "Visvg", V("g%d" % g), V("gr%d" % h)), g, h)
+                break
+        for v in range(NV):
+            if vex[v]:
+                S("isvs", p.call("i", "Visvs", V("g%d" % g), V("vr%d" % v)), g, v)
+                break
 
     def observe_file():
         S("vgids", p.call("i", "hx_vgetid_all", V("f"), Out(4 * 64), 64))
@@ -494,6 +503,19 @@ def check(case, rr, prog, steps, labels):
             want = 1 if (t, rf) in members(g) else 0
             if r.ret != want:
                 raise Fail("Vinqtagref differs", expected=want, observed=r.ret)
+        elif role == "inquire":
+            g = a[0]
+            n = struct.unpack("=i", r.bufs[0])[0]
+            if r.ret != 0 or n != len(gs[g].members) or r.bufs[1] != gs[g].name.encode():
+                raise Fail("Vinquire differs from model", expected=[len(gs[g].members), repr(gs[g].name)[:60]],
+                           observed=[n, repr(r.bufs[1])[:60]], ret=r.ret)
+        elif role in ("isvg", "isvs"):
+            g, h = a
+            ref = gs[h].ref if role == "isvg" else vs_ref[h]
+            want = 1 if ((DFTAG_VG if role == "isvg" else DFTAG_VH), ref) in members(g) else 0
+            if r.ret != want:
+                raise Fail("%s differs from model" % ("Visvg" if role == "isvg" else "Visvs"), expected=want,
+                           observed=r.ret, ref=ref)
         elif role == "tagref0":
             ms = members(a[0])
             if not ms:
